@@ -92,9 +92,19 @@ def harness_names(module):
     return [(n, bool(q)) for q, n in re.findall(r"^\s*(@quick\s+)?(\w+)\s*\[\d+\]\s*=>", blk, re.M)]
 
 
+RV_PROPS = {"C02", "C03", "C04"}
+
+
 def run(prop, tier):
     cfg = CFG[prop]
     t0 = time.time()
+    only = os.environ.get("VERIF_ONLY", "")
+    if only == "rv" and prop in RV_PROPS:
+        import rv_domain
+        v, inc, cov = rv_domain.run_rv(prop, tier)
+        cov.update({"obligations": 1, "discharged": 0, "checker_cmd": "VERIF_ONLY=rv (result-validation part only; not a full run of the check)", "trusted_base": []})
+        write_evidence(prop, tier, "proof", cov, COMMON_ASSUMPTIONS, time.time() - t0, len(v))
+        return finish(prop, v, inc)
     names = harness_names(cfg["module"])
     if tier == "quick":
         names = [n for n, q in names if q]
@@ -198,14 +208,27 @@ def run(prop, tier):
         "samples": samples,
         "explanation": "each obligation is one #[kani::proof] harness over kani::any() inputs; discharged = VERIFICATION SUCCESSFUL with unwinding assertions on and every kani::cover witness satisfied",
     }
+    assumptions = list(COMMON_ASSUMPTIONS)
+    if prop in RV_PROPS and only != "kani":
+        import rv_domain
+        v2, inc2, cov2 = rv_domain.run_rv(prop, tier)
+        violations += v2
+        inconclusive += inc2
+        coverage["domain_layer_result_validation"] = cov2
+        coverage["queries_discharged"] += cov2.get("queries_discharged", 0)
+        coverage["solver_s"] = round(coverage["solver_s"] + cov2.get("solver_s", 0.0), 1)
+        assumptions.append("domain layer (IntervalDomain / DataDomain / DomainMap / MemRegion operations): abstract inputs are generated (boundary-biased, seeded), the real operation runs natively, z3 decides coverage for all concrete members; pointer identifiers stand for arbitrary 64-bit base addresses; an absent map key means 'no value' under the union strategy and 'unknown' under the other two; an absent memory cell means 'unknown'")
     known_keys = {f["key"] for f in __import__("common").load_known(prop)}
     n_new = len([v for v in violations if v["key"] not in known_keys])
-    write_evidence(prop, tier, "proof", coverage, COMMON_ASSUMPTIONS, time.time() - t0, n_new)
+    write_evidence(prop, tier, "proof", coverage, assumptions, time.time() - t0, n_new)
     return finish(prop, violations, inconclusive)
 
 
 def replay(prop, path):
     d = json.load(open(path))
+    if d.get("engine") == "rv":
+        import rv_domain
+        return rv_domain.replay(prop, path)
     b = K.build_replay()
     if b is None:
         log("cannot build replay binary")
